@@ -13,8 +13,8 @@
 From Coq Require Import List Reals ZArith.
 From ML Require Import Ops Vec VecR MatR LinAlg Mahalanobis MahalanobisR C09Proof CovProof.
 From ML Require Import PinsC09.
-From ML Require Import NPNum C09Src C09Chunks.
-From MLgen Require Import Src_rca.
+From ML Require Import NPNum C09Src C09Chunks C09Proof C09Lfda.
+From MLgen Require Import Src_rca Src_lfda.
 Import ListNotations.
 Open Scope R_scope.
 
@@ -81,3 +81,17 @@ Example C09_rca_within_chunk_nonvacuous :
   Forall (wfvR 2) [[0; 0]; [2; 0]; [5; 5]; [1; 3]; [1; 5]] /\ Forall (fun c => (-1 <= c)%Z) [0; 0; -1; 1; 1]%Z /\
   nn_mask (nn_ne_zs [0; 0; -1; 1; 1]%Z (-1)%Z) [0; 0; -1; 1; 1]%Z = [0; 0; 1; 1]%Z.
 Proof. split; [repeat constructor | split; [repeat constructor; discriminate | reflexivity]]. Qed.
+
+(* the translated source, LFDA: the statement of LFDA.fit that forms the local scatter of one class,
+   G = Xc.T.dot(A.sum(axis=0)[:, None] * Xc) - Xc.T.dot(A).dot(Xc), as it reads on this run (gen/Src_lfda.v).  For every class
+   block Xc (nc x d, nc >= 1), every symmetric nc x nc affinity A and every direction x:  x^T G x = 1/2 sum_ij A_ij (x.xc_i - x.xc_j)^2,
+   the documented pairwise definition.  The statements around it (affinity, accumulation into tSb / tSw) are pinned as lfda_skeleton. *)
+Definition C09_lfda_source_stmt : Prop :=
+  forall nc d (Xc A : Rm) (x : Rv),
+    Xc <> [] -> length Xc = nc -> Forall (wfvR d) Xc -> wfmR nc nc A -> symop nc A -> wfvR d x ->
+    quadformR (@lfda_G ROps Xc A) x = / 2 * pairsum A (mvmulR Xc x).
+
+Theorem C09_lfda_source : C09_lfda_source_stmt.
+Proof. exact lfda_G_pairwise. Qed.
+Print Assumptions C09_lfda_source.
+Definition C09_lfda_skeleton := lfda_skeleton_ok.
